@@ -1,5 +1,6 @@
 use crate::fw::Ctx;
 
+pub mod c01;
 pub mod c02;
 pub mod c03;
 pub mod c04;
@@ -16,6 +17,7 @@ pub mod c13;
 pub mod c14;
 pub mod c15;
 pub mod c16;
+pub mod c17;
 pub mod c18;
 pub mod c19;
 pub mod c20;
@@ -28,6 +30,11 @@ pub struct Check {
 
 pub fn lookup(id: &str) -> Option<Check> {
     let all = [
+        Check {
+            id: "C01",
+            level: "exploration",
+            run: c01::run,
+        },
         Check {
             id: "C02",
             level: "exploration",
@@ -102,6 +109,11 @@ pub fn lookup(id: &str) -> Option<Check> {
             id: "C16",
             level: "fault_enumeration",
             run: c16::run,
+        },
+        Check {
+            id: "C17",
+            level: "exploration",
+            run: c17::run,
         },
         Check {
             id: "C18",
